@@ -20,7 +20,13 @@ pub fn to_mont(x: &BigUint) -> [u64; 4] {
 pub fn from_mont(l: &[u64; 4]) -> BigUint {
     let p = &sm2::params().p;
     let rinv = r256().modpow(&(p - BigUint::from(2u32)), p);
-    (from_limbs(l) * rinv) % p
+    let raw = from_limbs(l);
+    if &raw >= p {
+        // a stored value outside [0, p) is not a field element of this library (is_zero / == compare limbs): it must
+        // never equal an expected value (all of which are below p), so it is handed on as it is instead of being reduced
+        return raw;
+    }
+    (raw * rinv) % p
 }
 
 /// library point for the affine point (x, y) in the Jacobian representation with Z = lambda
